@@ -411,6 +411,15 @@ pub fn run_c06(cfg: &Cfg) {
             ]);
         }
     }
+    // exact integer boundaries (the extreme values of usize / isize / u32 and their neighbours) wherever a number is read
+    for v in ["2147483647", "2147483648", "4294967295", "4294967296", "9223372036854775806", "9223372036854775807", "9223372036854775808",
+              "9223372036854775809", "9999999999999999999", "10000000000000000000", "18446744073709551614", "18446744073709551615", "18446744073709551616"] {
+        pats.extend(vec![
+            format!("a{{{}}}", v), format!("a{{{},}}", v), format!("a{{1,{}}}", v), format!("(?:a(?=)){{{}}}", v), format!("(?:(?=)a){{0,{}}}", v),
+            format!("(a)\\k<-{}>", v), format!("(a)\\k'-{}'", v), format!("(a)\\g<-{}>", v), format!("(a)(?(<-{}>)b|c)", v), format!("(a)\\k<{}>", v),
+            format!("(a)\\{}", v), format!("(a)(?({})b|c)", v), format!("(?<=a{{{}}})b", v), format!("(?<=(?>a){{{}}})b", v),
+        ]);
+    }
     // native-stack probes: nesting far beyond what any recursion without a depth check survives
     for open in ["(", "(?:", "(?=", "(?<=", "(?>", "(?i:", "(?<n>", "(?(a)", "(?x:", "(?-i:", "[", "(?((", "a|("] {
         pats.push(open.repeat(200_000));
